@@ -502,6 +502,16 @@ func (b *builder) build1(v *Val) interface{} {
 			m[k.str(in)] = b.sub(v, i)
 		}
 		return m
+	case "hmsv":
+		// a map with keys of a SafeValue type and plain string values, in an
+		// unexported field (nothing in it can be boxed)
+		m := map[redact.SafeString]string{}
+		for i, k := range v.Keys {
+			if i < len(v.Sub) {
+				m[redact.SafeString(k.str(in))] = v.Sub[i].str(in)
+			}
+		}
+		return HiddenSV{ID: 7, labels: m}
 	case "pmsi":
 		m := map[string]interface{}{}
 		for i, k := range v.Keys {
